@@ -135,7 +135,7 @@ def correspondence(ctx, recs, cmp_name, tag, chunk=120):
 def guard_of(game, meta):
     """'exact' | 'cond' | 'any' — the strongest family of claims that is sound for this input"""
     st = meta["style"]
-    if st in ("exact", "pattern", "corpus"):
+    if st in ("exact", "ties", "pattern", "corpus"):
         return "exact"
     if st == "stopping":
         T = ox.max_steps(game, meta)
